@@ -39,6 +39,8 @@ class Worker:
     self.log = open(self.logpath, "ab")
     env = dict(os.environ)
     env.setdefault("PYTHONHASHSEED", "0")
+    for k in ("OMP_NUM_THREADS", "OPENBLAS_NUM_THREADS", "MKL_NUM_THREADS", "NUMEXPR_NUM_THREADS"):
+      env.setdefault(k, "1")
     env["PYTHONPATH"] = VERIF + os.pathsep + env.get("PYTHONPATH", "")
     self.proc = subprocess.Popen(
       [PY, "-m", "mc.worker", self.prop, str(p2c_r), str(c2p_w)],
